@@ -1,3 +1,4 @@
+import FeatModel.Model.LA.Convert
 /-
 Model of the algebraic core of `Assembly::GridTransfer` (kernel/assembly/grid_transfer.hpp),
 `Math::invert_matrix` (kernel/util/math.hpp), `SparseMatrixCSR::transpose` and `LAFEM::Transfer`.
@@ -52,14 +53,13 @@ def pivotSearch (a : Mat) (p : List Nat) (k n : Nat) : Nat :=
 def swapPiv (p : List Nat) (k i : Nat) : List Nat :=
   if i > k then (p.set k (p.getD i 0)).set i (p.getD k 0) else p
 
-/-- steps 2 and 3 for the pivot row/column `q` (requires `a[q][q] ≠ 0`):
+/-- steps 2 and 3 for the pivot row/column `q` (requires `T q q ≠ 0`), entry `(i, j)` of the updated matrix:
 row `q`: `a[q][q] := 1; a[q][·] *= 1/pivot`; every other row `i`: `f := a[i][q]; a[i][q] := 0; a[i][·] -= a[q][·]*f` -/
-def sweep (n q : Nat) (a : Mat) : Mat :=
-  let piv := 1 / get a q q
-  tab n n fun i j =>
-    let rowq := (if j = q then 1 else get a q j) * piv
-    if i = q then rowq
-    else (if j = q then 0 else get a i j) - rowq * get a i q
+def sweepEntry (q : Nat) (T : Nat → Nat → Rat) (i j : Nat) : Rat :=
+  let rowq := (if j = q then 1 else T q j) * (1 / T q q)
+  if i = q then rowq else (if j = q then 0 else T i j) - rowq * T i q
+
+def sweep (n q : Nat) (a : Mat) : Mat := tab n n (sweepEntry q (get a))
 
 structure InvState where
   a : Mat
@@ -91,21 +91,73 @@ def invertMatrix (n stride : Nat) (a : Mat) : Option (Rat × Mat × List Nat) :=
     | none => none
     | some st => some (st.det, st.a, st.p)
 
+/-! ### the same algorithm on the strided storage `DT_ a[]` (entry `(i,j)` at `i*stride + j`): only the positions
+`i*stride + j` with `i, j < n` are ever written; the padding `j ≥ n` of a `Tiny::Matrix` with `sn > n` is untouched -/
+
+def getF (stride : Nat) (a : List Rat) (i j : Nat) : Rat := a.getD (i * stride + j) 0
+
+def pivotSearchF (stride : Nat) (a : List Rat) (p : List Nat) (k n : Nat) : Nat :=
+  let d := fun j => qabs (getF stride a (p.getD j 0) (p.getD j 0))
+  pivotLoop d (List.range' (k + 1) (n - (k + 1))) (d k) k
+
+/-- steps 2 and 3 on the strided storage: the loops `for j < n: a[pk_off + j] …`, `for i < n, j < n: a[i*stride + j] …` -/
+def sweepFlat (n stride q : Nat) (a : List Rat) : List Rat :=
+  (List.range a.length).map fun idx =>
+    if idx / stride < n ∧ idx % stride < n then sweepEntry q (getF stride a) (idx / stride) (idx % stride)
+    else a.getD idx 0
+
+structure InvStateF where
+  a : List Rat
+  p : List Nat
+  det : Rat
+
+def invStepF (n stride : Nat) (st : InvStateF) (k : Nat) : Option InvStateF :=
+  let p := swapPiv st.p k (pivotSearchF stride st.a st.p k n)
+  let q := p.getD k 0
+  let d := getF stride st.a q q
+  if d = 0 then none else some { a := sweepFlat n stride q st.a, p := p, det := st.det * d }
+
+def invLoopF (n stride : Nat) : List Nat → InvStateF → Option InvStateF
+  | [], st => some st
+  | k :: ks, st => match invStepF n stride st k with
+    | none => none
+    | some st' => invLoopF n stride ks st'
+
+/-- `Math::invert_matrix(n, stride, a, p)` on the storage array itself: `some (det, a afterwards, pivot array)` -/
+def invertFlat (n stride : Nat) (a : List Rat) : Option (Rat × List Rat × List Nat) :=
+  if n = 0 ∨ stride < n then some (0, a, [])
+  else if n = 1 then
+    let d := a.getD 0 0
+    if d = 0 then none else some (d, a.set 0 (1 / d), [])
+  else match invLoopF n stride (List.range n) { a := a, p := List.range n, det := 1 } with
+    | none => none
+    | some st => some (st.det, st.a, st.p)
+
+/-- the `n×n` block of the storage / the storage with the block replaced -/
+def extractBlock (n stride : Nat) (a : List Rat) : Mat := tab n n (getF stride a)
+
+def putBlock (n stride : Nat) (a : List Rat) (m : Mat) : List Rat :=
+  (List.range a.length).map fun idx =>
+    if idx / stride < n ∧ idx % stride < n then get m (idx / stride) (idx % stride) else a.getD idx 0
+
 /-! ### the data the assembly loops see -/
 
 structure Pt where
   w : Rat            -- cubature weight × jac_det
   f : List Rat       -- fine basis values
   c : List Rat       -- coarse basis values (at the refined cubature point)
+deriving Inhabited
 
 structure Child where
   fmap : List Nat
   pts : List Pt
+deriving Inhabited
 
 structure Cell where
   cmap : List Nat
   cpts : List Pt     -- coarse cubature loop: `w`, `c` used (`f` empty)
   children : List Child
+deriving Inhabited
 
 structure Dump where
   nf : Nat
@@ -229,50 +281,89 @@ def truncRaw (d : Dump) (tl : List (List Nat × List (List Nat × Mat))) : Mat :
 def truncWeights (d : Dump) (tl : List (List Nat × List (List Nat × Mat))) : List Rat :=
   vtab d.nc fun r => ((truncContrib d.nf tl r).length : Nat)
 
-/-! ### CSR transposition (`SparseMatrixCSR::transpose`) and `LAFEM::Transfer` -/
+/-! ### the two cell lookups of the assembly loops (mesh permutations) -/
 
-structure Csr where
-  rows : Nat
-  cols : Nat
-  rowPtr : List Nat
-  colInd : List Nat
-  val : List Rat
+/-- data of one fine mesh cell (mesh numbering): dof-mapping, per cubature point weight·jac_det and fine basis values -/
+structure FineCell where
+  fmap : List Nat
+  pts : List (Rat × List Rat)
+deriving Inhabited
 
-/-- entries of row `i` as (column, value) in storage order -/
-def Csr.row (m : Csr) (i : Nat) : List (Nat × Rat) :=
-  let b := m.rowPtr.getD i 0
-  let e := m.rowPtr.getD (i + 1) 0
-  ((m.colInd.zip m.val).drop b).take (e - b)
+/-- data of one coarse mesh cell (mesh numbering): dof-mapping, coarse cubature loop, coarse basis values at the points
+of the refined rule (point `l = child * npts + k`) -/
+structure CoarseCell where
+  cmap : List Nat
+  cpts : List Pt
+  ref : List (List Rat)
+deriving Inhabited
 
-/-- dense meaning: duplicates add -/
-def Csr.dense (m : Csr) (i j : Nat) : Rat :=
-  lsum ((m.row i).filterMap fun (c, v) => if c = j then some v else none)
+/-- a coarse/fine mesh pair as `GridTransfer` sees it.  `coarsePerm` = positions of
+`coarse_mesh.get_mesh_permutation().get_perm()`, `fineInvPerm` = positions of
+`fine_mesh.get_mesh_permutation().get_inv_perm()`; the empty list is the empty permutation (unpermuted mesh). -/
+structure TwoLevel where
+  nf : Nat
+  nc : Nat
+  nchild : Nat
+  npts : Nat
+  coarse : List CoarseCell
+  fine : List FineCell
+  coarsePerm : List Nat
+  fineInvPerm : List Nat
 
-def prefixSums : Nat → List Nat → List Nat
-  | acc, [] => [acc]
-  | acc, x :: xs => acc :: prefixSums (acc + x) xs
+/-- `perm.empty() ? i : perm.map(i)` -/
+def lookup (perm : List Nat) (i : Nat) : Nat := if perm.isEmpty then i else perm.getD i 0
 
-/-- counting-sort transposition: new row `l` lists, for ascending old row `i`, the entries of row `i` in column `l`
-in storage order.  An entry-free matrix gives the empty `cols × rows` matrix (with an all-zero row pointer). -/
-def Csr.transpose (m : Csr) : Csr :=
-  let newRows : List (List (Nat × Rat)) := (List.range m.cols).map fun l =>
-    (List.range m.rows).flatMap fun i => (m.row i).filterMap fun (c, v) => if c = l then some (i, v) else none
-  let all := newRows.flatten
-  { rows := m.cols, cols := m.rows, rowPtr := prefixSums 0 (newRows.map List.length),
-    colInd := all.map (·.1), val := all.map (·.2) }
+/-- `CoarseFineCellMapping::calc_fcell` of an unstructured (conformal) mesh: 2-level ordering -/
+def calcFcell (nchild ccell child : Nat) : Nat := ccell * nchild + child
 
-/-- `SparseMatrixCSR::apply(r, x)`: `r := A x` -/
-def Csr.apply (m : Csr) (x : List Rat) : List Rat :=
-  vtab m.rows fun i => lsum ((m.row i).map fun (c, v) => v * x.getD c 0)
+/-- the fine mesh cell visited for (`ccell`, `child`):
+`ccell_2lvl = coarse_perm(ccell); fcell_2lvl = calc_fcell(ccell_2lvl, child); fcell = fine_inv_perm(fcell_2lvl)` -/
+def TwoLevel.fcellOf (m : TwoLevel) (ccell child : Nat) : Nat :=
+  lookup m.fineInvPerm (calcFcell m.nchild (lookup m.coarsePerm ccell) child)
+
+/-- what the inner loop body integrates for (`ccell`, `child`) -/
+def TwoLevel.childOf (m : TwoLevel) (cc : CoarseCell) (ccell child : Nat) : Child :=
+  let fc := m.fine.getD (m.fcellOf ccell child) default
+  { fmap := fc.fmap,
+    pts := (List.range m.npts).map fun k =>
+      let wf := fc.pts.getD k (0, [])
+      { w := wf.1, f := wf.2, c := cc.ref.getD (child * m.npts + k) [] } }
+
+/-- the loop nest `for ccell … for child …` of `assemble_prolongation` / `assemble_truncation` / `prolongate_vector` -/
+def TwoLevel.toDump (m : TwoLevel) : Dump :=
+  { nf := m.nf, nc := m.nc,
+    cells := (List.range m.coarse.length).map fun i =>
+      let cc := m.coarse.getD i default
+      { cmap := cc.cmap, cpts := cc.cpts, children := (List.range m.nchild).map (m.childOf cc i) } }
+
+/-! ### CSR containers (shared model `FeatModel.LA.Csr` of C01/C02): layout of the prolongation matrix, restriction
+`rest = prol.transpose()` (C02's loop-faithful counting sort) and `LAFEM::Transfer` (C01's `apply`) -/
+
+open FeatModel.LA in
+/-- a dense matrix stored into a given CSR layout (`ScatterAxpy` into the 2-level pattern + `scale_rows`) -/
+def csrOfDense (rows cols : Nat) (ptr ind : List Nat) (m : Mat) : Csr Rat :=
+  { rows := rows, cols := cols, rowPtr := ptr.toArray, colInd := ind.toArray,
+    val := ((List.range rows).flatMap fun i =>
+      (List.range' (ptr.getD i 0) (ptr.getD (i + 1) 0 - ptr.getD i 0)).map fun k => get m i (ind.getD k 0)).toArray }
 
 /-- `LAFEM::Transfer`: three stored matrices -/
 structure Transfer where
-  prol : Csr
-  rest : Csr
-  trunc : Csr
+  prol : FeatModel.LA.Csr Rat
+  rest : FeatModel.LA.Csr Rat
+  trunc : FeatModel.LA.Csr Rat
 
-def Transfer.applyProl (t : Transfer) (xc : List Rat) : List Rat := t.prol.apply xc
-def Transfer.applyRest (t : Transfer) (yf : List Rat) : List Rat := t.rest.apply yf
-def Transfer.applyTrunc (t : Transfer) (yf : List Rat) : List Rat := t.trunc.apply yf
+/-- what `control/asm/transfer_asm.hpp` builds: `rest = prol.transpose()` -/
+def Transfer.ofProl (prol trunc : FeatModel.LA.Csr Rat) : Transfer :=
+  { prol := prol, rest := prol.transpose, trunc := trunc }
+
+/-- `prol(vec_fine, vec_coarse)`: `_mat_prol.apply(vec_fine, vec_coarse)`; `none` = size assertion -/
+def Transfer.applyProl (t : Transfer) (vecFine vecCoarse : Array Rat) : Option (Array Rat) :=
+  t.prol.applyQ vecCoarse vecFine false
+/-- `rest(vec_fine, vec_coarse)`: `_mat_rest.apply(vec_coarse, vec_fine)` -/
+def Transfer.applyRest (t : Transfer) (vecFine vecCoarse : Array Rat) : Option (Array Rat) :=
+  t.rest.applyQ vecFine vecCoarse false
+/-- `trunc(vec_fine, vec_coarse)`: `_mat_trunc.apply(vec_coarse, vec_fine)` -/
+def Transfer.applyTrunc (t : Transfer) (vecFine vecCoarse : Array Rat) : Option (Array Rat) :=
+  t.trunc.applyQ vecFine vecCoarse false
 
 end FeatModel.GT
